@@ -333,6 +333,14 @@ func (c *FnCtx) evIdent(x *eIdent, env *evalEnv) *Val {
 			}
 		}
 	}
+	// address-taken local variable (captured by a closure, ...): its current content
+	if c.fn != nil && env.vars != nil {
+		if vs := c.addrNames[x.name]; len(vs) == 1 {
+			if r, ok := c.regs[vs[0]]; ok {
+				return c.load(c.state(env), r)
+			}
+		}
+	}
 	// package-level constants
 	if env.pkg != nil {
 		if o := env.pkg.Scope().Lookup(x.name); o != nil {
@@ -474,7 +482,7 @@ func (c *FnCtx) evIndex(x *eIndex, env *evalEnv) *Val {
 	case *types.Slice:
 		hn, hs := c.elemHeap(u.Elem())
 		h := c.heapGet(c.state(env), hn, hs)
-		r := c.mk(u.Elem(), app("select", app("select", h, app("s_arr", v.S)), app("+", app("s_off", v.S), i.S)))
+		r := c.mk(u.Elem(), c.at(h, hs, v.S, i.S))
 		return r
 	case *types.Map:
 		ks := i.S
@@ -595,6 +603,7 @@ func (c *FnCtx) evQuant(x *eQuant, env *evalEnv) *Val {
 		if _, ok := isIntT(T); ok {
 			guards = append(guards, intRange(T, nm))
 		}
+
 	}
 	c.qDepth++
 	c.qFacts = append(c.qFacts, nil)
@@ -854,7 +863,11 @@ func (c *FnCtx) evCall(x *eCall, env *evalEnv) *Val {
 		case "isfresh":
 			// isfresh(s): the backing array of slice s was allocated during this call (or s is nil)
 			v := c.ev(x.args[0], env)
-			return c.mk(boolT, or(eq(app("s_arr", v.S), "0"), app(">=", app("s_arr", v.S), c.entry.nextRef)))
+			pre := c.entry.nextRef
+			if env.old != nil && env.old.nextRef != "" {
+				pre = env.old.nextRef
+			}
+			return c.mk(boolT, or(eq(app("s_arr", v.S), "0"), and(app(">=", app("s_arr", v.S), pre), app("<", app("s_arr", v.S), env.st.nextRef))))
 		case "fresh":
 			// fresh(p): p was allocated during this call
 			v := c.ev(x.args[0], env)
@@ -992,6 +1005,11 @@ func (c *FnCtx) evPureCall(f *types.Func, recv *Val, args []specExpr, env *evalE
 // arguments (requires ==> ensures). The callee's contract is verified on its own.
 func (c *FnCtx) instantiatePure(f *types.Func, vals []*Val, res *Val, env *evalEnv) {
 	if f.Pkg() == nil || !strings.HasPrefix(f.Pkg().Path(), repoMod) || env.depth > 1 {
+		return
+	}
+	if c.qDepth > 0 {
+		// only ground applications: a universally quantified copy of the callee's contract
+		// would also range over ill-typed values of the bound variables
 		return
 	}
 	sf := c.L.prog.FuncValue(f)
